@@ -160,7 +160,7 @@ def check_cpl_result(inst, raw, refuse=None):
     epigraph variable).  Returns (problems, info)."""
     probs = []
     n, p = inst['n'], inst['p']
-    is_cp = inst['kind'] == 'cp'
+    is_cp = inst['kind'] in ('cp', 'gp')
     for name in ('x', 'y', 'snl', 'sl', 'znl', 'zl'):
         if raw.get(name) is None:
             probs.append(('missing', name, None, None))
